@@ -112,7 +112,9 @@ func (c CodecProto) ReadNext(b []byte, r io.Reader, limit int) ([]byte, int, err
 			}
 			n, err := r.Read(b[len(b):cap(b)])
 			b = b[:len(b)+n]
-			if err != nil {
+			if err != nil && !(err == io.EOF && n > 0) {
+				// Data returned together with io.EOF is processed
+				// first, the next Read reports io.EOF again.
 				return b, 0, err
 			}
 		}
@@ -209,7 +211,9 @@ func (c CodecJSON) ReadNext(b []byte, r io.Reader, limit int) ([]byte, int, erro
 			}
 			n, err := r.Read(b[len(b):cap(b)])
 			b = b[:len(b)+n]
-			if err != nil {
+			if err != nil && !(err == io.EOF && n > 0) {
+				// Data returned together with io.EOF is processed
+				// first, the next Read reports io.EOF again.
 				return b, 0, err
 			}
 		}
